@@ -18,7 +18,7 @@ import (
 func init() {
 	simkit.Register(&simkit.Property{
 		ID: "C17", Level: "exploration", Bubble: false, Run: runC17,
-		Rule: "A simulated hostile contract and registrant: per run one generated trigger definition (every operator, topic/data offsets, static and dynamic references, 0-4 predicates, boundary integers, topic BytesEq arguments of 0/31/32/33 bytes, duplicates) goes through the real MarshalBytes/UnmarshalBytes/Validate/ToFilterQuery, plus byte-level mutations of its encoding through the real decoder; then 1-12 generated logs (0-4 topics, 0-10 data words, optionally truncated; dynamic offset words pointing inside / at / beyond the data end, length words 0,1,31,32,33,rest,rest+1,2^16,2^31,2^32,2^63,2^64-1, 256-bit offsets) are matched by the real Match under a panic guard and an allocation meter, compared with ref.TrigDef (written from docs/event.md) wherever the log is well formed for the definition, and passed through a node-side filter (eth_getLogs semantics) derived by the real ToFilterQuery. NOTE: encode/decode/match are pure functions; this part of the quantifier is seeded input sampling by a simulated faulty party, not schedule exploration. Non-trivial = a run with a well-formed dynamic reference that matched or a hostile reference that was survived; distinct = distinct trace hashes among those.",
+		Rule: "A simulated hostile contract and registrant: per run one generated trigger definition (every operator, topic/data offsets, static and dynamic references, 0-4 predicates, boundary integers, topic BytesEq arguments of 0/31/32/33 bytes, duplicates) goes through the real MarshalBytes/UnmarshalBytes/Validate/ToFilterQuery, plus byte-level mutations of its encoding through the real decoder; then 1-12 generated logs (0-4 topics, 0-10 data words, optionally truncated; dynamic offset words pointing inside / at / beyond the data end, length words 0,1,31,32,33,rest,rest+1,2^16,2^31,2^32,2^63,2^64-1, 256-bit offsets) are matched by the real Match under a panic guard and an allocation meter, compared with ref.TrigDef (written from docs/event.md) wherever the log is well formed for the definition, and passed through a node-side filter (eth_getLogs semantics) derived by the real ToFilterQuery. The bytes first returned by MarshalBytes are kept through all of that and two later encodes of another definition, and must then be unchanged and still decode to the definition. NOTE: encode/decode/match are pure functions; this part of the quantifier is seeded input sampling by a simulated faulty party, not schedule exploration. Non-trivial = a run with a well-formed dynamic reference that matched or a hostile reference that was survived; distinct = distinct trace hashes among those.",
 		Assumptions: []string{"node-side filter semantics as in the execution-apis / go-ethereum filters: address list, positional topic alternatives, filter longer than the log's topics never matches", "allocation bound: 8 MiB + 1 KiB per log byte"},
 		Real:        []string{"shutterservice.EventTriggerDefinition (MarshalBytes, UnmarshalBytes, Validate, ToFilterQuery, Match)", "go-ethereum rlp"},
 		Stub:        []string{"the contract emitting logs and the node's log filter (ref.FilterPasses)"},
